@@ -347,6 +347,7 @@ func runCrash(path string) {
 	}
 	lineNo := 0
 	var pending []string
+	var lastWrites [][]bop
 	for sc.Scan() {
 		line := sc.Text()
 		lineNo++
@@ -355,11 +356,40 @@ func runCrash(path string) {
 		}
 		args := strings.Fields(line)
 		var res string
+		if args[0] == "wlog" {
+			// the physical writes of the last mutating operation: operation sizes and chunk lengths, for the
+			// model of BatchWithFlusher (MemDB only: other backends size their batches differently)
+			if lastWrites == nil || s.cfg.db != "mem" {
+				fmt.Fprintf(out, "%d %s => %s\n", lineNo, line, "none")
+				continue
+			}
+			thr := s.cfg.thr
+			if thr <= 0 {
+				thr = iavl.DefaultOptions().FlushThreshold
+			}
+			var ops, chunks []string
+			for _, w := range lastWrites {
+				chunks = append(chunks, fmt.Sprint(len(w)))
+				for _, o := range w {
+					if o.del {
+						ops = append(ops, fmt.Sprintf("d%d", len(o.k)))
+					} else {
+						ops = append(ops, fmt.Sprintf("s%d+%d", len(o.k), len(o.v)))
+					}
+				}
+			}
+			fmt.Fprintf(out, "%d %s => thr=%d ops=%s chunks=%s\n", lineNo, line, thr, strings.Join(ops, ","), strings.Join(chunks, ","))
+			continue
+		}
 		if isMutating(args[0]) && s.backend != nil && s.rec != nil {
 			pre := snapshot(s.backend)
 			s.rec.log = nil
 			res = guarded(out, func() string { return s.exec(args) })
 			writes := s.rec.log
+			lastWrites = nil
+			if args[0] == "save" || args[0] == "prune" || args[0] == "delfrom" {
+				lastWrites = writes // operations that are ONE logical batch written through the flusher (a rollback by LoadVersionForOverwriting commits twice)
+			}
 			s.rec.log = nil
 			if !strings.HasPrefix(res, "err") && res != "panic" {
 				pend := append([]string{}, pending...)
